@@ -13,20 +13,27 @@ import (
 func walkWithConds(p *Path, f func(e *Event, conds []Cond, inRep []*Event)) {
 	var rec func(evs []*Event, base []Cond, baseN int, reps []*Event)
 	rec = func(evs []*Event, base []Cond, baseN int, reps []*Event) {
+		var extra []Cond // invariants of loops left in the middle of an iteration: they hold for that iteration's values from there on
 		for _, e := range evs {
-			n := e.NCond - baseN
-			if n < 0 {
-				n = 0
-			}
 			var conds []Cond
 			if baseN == 0 {
 				conds = p.Conds[:min(e.NCond, len(p.Conds))]
 			} else {
 				conds = base
 			}
+			if len(extra) > 0 {
+				conds = append(append([]Cond(nil), conds...), extra...)
+			}
 			f(e, conds, reps)
+			if e.Kind == EvRep && e.Partial && e.Inv != nil {
+				extra = append(extra, Cond{V: e.Inv, Taken: true})
+			}
 			for _, arm := range e.Iter {
-				ac := append(append([]Cond(nil), conds...), arm.Conds...)
+				ac := append([]Cond(nil), conds...)
+				if e.Kind == EvRep && e.Inv != nil {
+					ac = append(ac, Cond{V: e.Inv, Taken: true})
+				}
+				ac = append(ac, arm.Conds...)
 				r2 := reps
 				if e.Kind == EvRep {
 					r2 = append(append([]*Event(nil), reps...), e)
@@ -244,6 +251,12 @@ func nonNegative(v *Val, conds []Cond) bool {
 	case "loopvar":
 		return len(v.Args) == 1 && nonNegative(v.Args[0], conds)
 	case "binop":
+		if v.Name == "/" || v.Name == ">>" {
+			// a non-negative value divided by a positive constant (shifted right) stays non-negative
+			if k, ok := v.Args[1].Int64(); ok && (v.Name == "/" && k >= 1 || v.Name == ">>" && k >= 0) && nonNegative(v.Args[0], conds) {
+				return true
+			}
+		}
 		if v.Name == "+" {
 			// loopvar(init) + c with init + c >= 0 (counted loops step by +1)
 			a := affOf(v)
@@ -399,6 +412,13 @@ func (s *safety) dischargePanicSite(p *Path, ix *pathIndex, e *Event, conds []Co
 		x, lo, hi := stripCT(e.Args[0]), e.Args[1], e.Args[2]
 		if x.Op == "bufbytes" {
 			bb := ix.byID[x.ID]
+			// both bounds are boundaries of atoms appended (to this same buffer, with nothing consumed in between) before
+			// Bytes() was taken
+			if lo != nil && bb != nil {
+				if _, _, _, m, okw := ix.window(lo, hi, bb); okw && sameBuf(m.Buf, bb.Buf) && !consumedBetween(p, m, bb) {
+					return true, "bounds are boundaries of atoms appended to the same buffer before Bytes() was taken"
+				}
+			}
 			if lo != nil && lo.Op == "buflen" {
 				m := ix.byID[lo.ID]
 				if m != nil && bb != nil && m.Kind == EvLen && eventIndex(p, m) < eventIndex(p, bb) && sameBuf(m.Buf, bb.Buf) && !consumedBetween(p, m, bb) {
@@ -414,6 +434,9 @@ func (s *safety) dischargePanicSite(p *Path, ix *pathIndex, e *Event, conds []Co
 			return false, "slice of Bytes() with bounds " + valOrNil(lo) + ":" + valOrNil(hi) + " not provably inside the buffer"
 		}
 		ln := mkLen(x)
+		if x.Op == "availbuf" && len(x.Args) == 2 && hi != nil {
+			ln = x.Args[1] // re-slicing within the capacity that a preceding Grow guarantees
+		}
 		okLo := lo == nil || nonNegative(lo, conds)
 		okHi := hi == nil || (condHolds(conds, hi, "<=", ln) && nonNegative(hi, conds))
 		okOrd := lo == nil || hi == nil || condHolds(conds, lo, "<=", hi)
@@ -429,6 +452,13 @@ func (s *safety) dischargePanicSite(p *Path, ix *pathIndex, e *Event, conds []Co
 		need, _ := n.Int64()
 		if w, ok := affOf(mkLen(sl)).IsConst(); ok && w >= need {
 			return true, "slice has the required constant length"
+		}
+		if sl.Op == "slice" && stripCT(sl.Args[0]).Op == "bufbytes" && sl.Args[1] != nil {
+			if bb := ix.byID[stripCT(sl.Args[0]).ID]; bb != nil {
+				if _, _, w, m, okw := ix.window(sl.Args[1], sl.Args[2], bb); okw && w >= need && sameBuf(m.Buf, bb.Buf) {
+					return true, "the slice spans atoms of the required total size"
+				}
+			}
 		}
 		return false, "PutUintN target " + sl.Pretty() + " may be shorter than the number"
 	case "slice2array":
@@ -618,6 +648,10 @@ func (s *safety) checkNoPanic(rep *Report, prefix string, key string, fn *ssa.Fu
 					okc := nonNegative(e.Args[1], conds)
 					rep.Ob(prefix+"1-make-size", key+":make@"+site, okl && okc, epos, "make with a size that may be negative: "+prettyVals(e.Args))
 				}
+			case EvBufOther:
+				if e.Mode == "Grow" && len(e.Args) == 1 {
+					rep.Ob(prefix+"1-make-size", key+":grow@"+site, nonNegative(e.Args[0], conds), epos, "(*Buffer).Grow panics on a negative count: "+prettyVals(e.Args))
+				}
 			case EvCall:
 				switch {
 				case strings.HasPrefix(e.Mode, "recursion:"):
@@ -648,6 +682,11 @@ func (s *safety) checkNoPanic(rep *Report, prefix string, key string, fn *ssa.Fu
 				rep.Ob(prefix+"4-locks", key+":"+e.Mode, e.Mode == "RLock" || e.Mode == "RUnlock", epos, "codec path takes "+e.Mode+" on "+e.Recv.Pretty())
 			case EvRep:
 				bounded := e.Bounded == "counted" || e.Bounded == "range" || e.Bounded == "counted-down" || e.Bounded == "bulk"
+				if e.Bounded == "shrinking" {
+					// runs at most once per element of a slice already in memory (whose allocation C10 bounds by the input)
+					rep.Ob(prefix+"2-loop-bounded", key+":loop@"+site, true, "", "")
+					return
+				}
 				if decode {
 					// the trip count must be bounded by the input size: either the count does not derive from
 					// wire data at all (a constant or parameter), or each completed iteration consumes at least one byte
@@ -852,6 +891,18 @@ func boundedByInput(v *Val, conds []Cond) (bool, string) {
 	for inner.Op == "conv" {
 		inner = stripCT(inner.Args[0])
 	}
+	if inner.Op == "choice" && len(inner.Args) > 0 {
+		// the value of one of several effect-free alternatives: bounded when each of them is
+		all := true
+		for _, alt := range inner.Args {
+			if ok, _ := boundedByInput(alt, conds); !ok {
+				all = false
+			}
+		}
+		if all {
+			return true, "every alternative bounded"
+		}
+	}
 	if inner.Op == "call" && inner.Name == "min" {
 		for _, a := range inner.Args {
 			a = stripCT(a)
@@ -860,6 +911,18 @@ func boundedByInput(v *Val, conds []Cond) (bool, string) {
 			}
 			if a.Op == "buflen" {
 				return true, "min(…, buf.Len())"
+			}
+			// buf.Len() / k with a constant k >= 1: still bounded by the bytes present
+			if a.Op == "binop" && a.Name == "/" {
+				num := stripCT(a.Args[0])
+				for num.Op == "conv" {
+					num = stripCT(num.Args[0])
+				}
+				// buf.Len() >= 0, so buf.Len()/k <= buf.Len() for every k for which the division is defined (k = 0
+				// panics and negative results make the allocation panic: both are C09's concern, not an allocation)
+				if num.Op == "buflen" {
+					return true, "min(…, buf.Len()/k)"
+				}
 			}
 			if _, isC := a.Int64(); isC {
 				return true, "min with a constant bound"
